@@ -271,6 +271,42 @@ def run(ck, replay=None):
     darsia = import_darsia()
     rng = random.Random(ck.seed)
     quick = ck.tier == "quick"
+    # two transformation corrections that agree in everything a shared voxel map could be keyed by (shapes of source and
+    # destination; for "same-frames" also their placement) and differ in the transformation / the placement, constructed and
+    # applied along every interleaving of spec/TwoObjects.tla: each moves the voxels ITS transformation prescribes
+    from lib import twoobj
+    thists = twoobj.histories(ck)
+    tspecs = []
+    for kind in ("same-frames-voxelcentre", "same-frames-coordinate", "other-placement-coordinate"):
+        def make(o, kind=kind):
+            hh = 0.5 if (o == "a" or kind.startswith("same")) else 1.25
+            org = [0.0, 0.0] if (o == "a" or kind.startswith("same")) else [3.0, -2.0]
+            src = darsia.Image(np.arange(1.0, 21.0).reshape(4, 5), space_dim=2, dimensions=[4 * hh, 5 * hh], scalar=True)
+            dst = darsia.Image(np.zeros((4, 5)), space_dim=2, dimensions=[4 * hh, 5 * hh], origin=org, scalar=True)
+            t = np.array([1.0, 0.0]) if o == "a" else np.array([0.0, 2.0])       # whole voxels (rows, columns)
+            A = darsia.AffineTransformation(2)
+            if kind.endswith("voxelcentre"):
+                A.set_dtype(darsia.make_voxel_center([[0, 0]]), darsia.make_voxel_center([[0, 0]]))
+                A.set_parameters(translation=t, scaling=1.0, rotation=np.array([0.0]))
+            else:
+                cs_s, cs_d = src.coordinatesystem, dst.coordinatesystem
+                x0 = np.asarray(cs_s.coordinate(darsia.make_voxel_center([[0, 0]])[0] if False else [0, 0]), dtype=float)
+                x1 = np.asarray(cs_d.coordinate([int(t[0]), int(t[1])]), dtype=float)
+                A.set_dtype(darsia.make_coordinate([[0.0, 0.0]]), darsia.make_coordinate([[0.0, 0.0]]))
+                A.set_parameters(translation=x1 - x0, scaling=1.0, rotation=np.array([0.0]))
+            with warnings.catch_warnings():
+                warnings.simplefilter("ignore")
+                return (src, darsia.TransformationCorrection(src.coordinatesystem, dst.coordinatesystem, A))
+
+        def use(o, obj):
+            src, corr = obj
+            with warnings.catch_warnings():
+                warnings.simplefilter("ignore")
+                return np.asarray(corr(src).img, dtype=float)
+
+        sel = thists if not quick else [h for h in thists if len(h) <= 4]
+        tspecs.append((sel, "transformation-" + kind, make, use, lambda x, y: x.shape == y.shape and np.allclose(x, y, rtol=1e-9, atol=1e-9), "twin:" + kind))
+    ck.cov["twin_object_histories"] = twoobj.run(ck, "C09", tspecs)
     events = []
     if replay:
         for c in json.load(open(replay))["cases"]:
